@@ -410,6 +410,7 @@ def cached_table_adoption_rule(ctx, rule):
 
 
 VARIANTS = [
+    M('R7', TOC, "        try:\n            return all(isinstance(element, self.element_class)\n                       for group in cache_data.values()\n                       for element in group.values())\n        except AttributeError:\n            return False", "        return all(isinstance(element, self.element_class)\n                   for group in cache_data.values()\n                   for element in group.values())", 'wrong-shaped cache document raises'),
     M('R1', TC, "            except Exception as exp:\n                logger.warning('Error while parsing cache file [%s]:%s',", "            except ValueError as exp:\n                logger.warning('Error while parsing cache file [%s]:%s',", 'narrow handler'),
     M('R1', TC, "        cache_data = None\n        pattern = '%08X.json' % crc", "        cache_data = {}\n        pattern = '%08X.json' % crc", 'result starts non-None'),
     M('R2', TC, "                cache.write(json.dumps(toc, indent=2,\n                                       default=self._encoder))", "                cache.write('{')\n                cache.write(json.dumps(toc, indent=2,\n                                       default=self._encoder)[1:])", 'two writes'),
